@@ -610,3 +610,33 @@ PRECHECKS["typelink"] = typelink_precheck
 H("typelink_anchor", module="verif_sigs.rs", props=["C09", "C10", "C14"], generator="typelink", precheck="typelink", fq="interface::injector::verif_sigs::c09_sig_unchecked", fns=MAC_FNS, covers=["COVER:end"],
   shared={("C09.typelink.%s" % n): ["C10", "C14"] for n, _d, _s in gen_typelink.CASES},
   bounded="nine mis-declared uses, one per type-carrying macro form; rustc is the checker")
+
+
+# ------------------------------------------------------------------------------------------------
+# C04 / C05: the process-wide guard must be released by drop glue (so that it is released on EVERY exit of the
+# injector's drop, including a panicking restore). Kani has no unwinding, so this is a scan for constructs that
+# take a value out of drop glue's hands, confirmed by a native replay (restore fault -> waiter must still get in).
+def scan_lock_released_by_glue(repo):
+    t = open(os.path.join(repo, "src", INJ)).read()
+    code = "\n".join(l for l in t.split("\n") if not l.strip().startswith("//"))
+    hits = sorted(set(re.findall(r"ManuallyDrop|mem::forget|Box::leak|MaybeUninit", code)))
+    m = re.search(r"pub struct InjectorPP\s*\{(.*?)\n\}", code, re.S)
+    if not m:
+        return None, "struct InjectorPP not found"
+    fields = m.group(1)
+    lock_plain = re.search(r"_lock\s*:\s*MutexGuard<'static,\s*\(\)>", fields) is not None
+    if hits or not lock_plain:
+        return False, "the injector's lock guard is not a plain field released by drop glue (%s%s)" % (", ".join(hits), "" if lock_plain else "; _lock is not `MutexGuard<'static, ()>`")
+    return True, "InjectorPP holds the guard as a plain `MutexGuard` field; no ManuallyDrop / mem::forget / Box::leak in injector.rs"
+
+
+STATIC["c04_lock_released_by_drop_glue"] = dict(props=["C04", "C05"], fn=scan_lock_released_by_glue, obligation="C04.lock.released-on-every-exit",
+                                                replay_static=lambda verif: _replay_bin("c04_restore_fault", [], verif))
+
+# C14 ("all other async functions behave as before") composes C03 / C12 for sibling poll functions: the
+# allocator's "only what it mapped is ever unmapped" obligations are therefore shared with C14 too
+VERUS["alloc_linux_x86_64"]["props"] = sorted(set(VERUS["alloc_linux_x86_64"]["props"]) | {"C14"})
+for _o in ("C11.alloc.unmap-own", "C11.alloc.unmap-len", "C11.alloc.inv.given-back", "C11.alloc.frame"):
+    VERUS["alloc_linux_x86_64"]["shared"][_o] = sorted(set(VERUS["alloc_linux_x86_64"]["shared"].get(_o, [])) | {"C14"})
+HARNESSES["c11_alloc_twin"]["props"] = sorted(set(HARNESSES["c11_alloc_twin"]["props"]) | {"C14"})
+HARNESSES["c11_alloc_twin"]["shared"] = {"C11.twin.frame": ["C12", "C03", "C14"]}
